@@ -98,6 +98,8 @@ type Program struct {
 	// GlobalIOMode, when set, is written on the bmdef line ("iomode:sync|async"): the more specific
 	// iomode of every code section must still win
 	GlobalIOMode string `json:"global_iomode,omitempty"`
+	// SameLabelNames: the code sections of all CPs draw their label names from one sequence
+	SameLabelNames bool `json:"same_label_names,omitempty"`
 }
 
 func lit(rng *rand.Rand, v uint64) string {
@@ -214,10 +216,14 @@ type genCtx struct {
 // section: a resolver that matches names by prefix or substring picks the wrong one.
 func (g *genCtx) label() string {
 	g.labels++
-	if g.labels <= 5 {
-		return fmt.Sprintf("L%d_%s", g.cpIdx, strings.Repeat("1", g.labels))
+	cp := strconv.Itoa(g.cpIdx)
+	if g.p.SameLabelNames {
+		cp = "" // every code section uses the same label names (at other line positions)
 	}
-	return fmt.Sprintf("N%d_%d", g.cpIdx, g.labels)
+	if g.labels <= 5 {
+		return fmt.Sprintf("L%s_%s", cp, strings.Repeat("1", g.labels))
+	}
+	return fmt.Sprintf("N%s_%d", cp, g.labels)
 }
 
 func (g *genCtx) reg() string { return "r" + strconv.Itoa(g.rng.IntN(g.regs)) }
@@ -273,6 +279,7 @@ func generate(rng *rand.Rand, sync bool, maxLit uint64, share bool) *Program {
 	if rng.IntN(4) == 0 {
 		p.GlobalIOMode = []string{"sync", "async"}[rng.IntN(2)]
 	}
+	p.SameLabelNames = rng.IntN(3) == 0
 	ncp := 1
 	if sync {
 		ncp = 1 + rng.IntN(3)
